@@ -767,16 +767,20 @@ def _execute(sc, store):
                     v_ = need_[st["victim"] % len(need_)]
                     os.rename(file_of(v_), file_of(v_) + ".hidden")
                     failed_ = False
+                    added_ = False
                     try:
                         for m in roots_:
                             lk.AddModule(load_file(m))
+                        added_ = True
                         guarded_link(lk)
                         bump("probe_missing_module_link_returns")
                     except StepBudgetExceeded:
                         bump("probe_missing_module_no_progress")
                     except Exception as e:
                         bump("probe_missing_module_raises_" + type(e).__name__)
-                        failed_ = True
+                        # only a failure of Link() itself is retried: a linker that resolves imports in
+                        # AddModule has refused the *module*, and a Link() after that is the host's mistake
+                        failed_ = added_
                     finally:
                         os.rename(file_of(v_) + ".hidden", file_of(v_))
                     if failed_:
